@@ -25,6 +25,20 @@ class Source:
         self._tree = {}
         self._funcs = {}
         self.consulted = set()
+        self.splices = {}        # rel -> [(qualname, canon_lo, canon_hi, orig_lo, orig_hi)]: functions analysed in reviewed form
+
+    def orig_line(self, rel, line):
+        """Line of the file on disk for a line of the canonical text."""
+        if line is None:
+            return None
+        shift = 0
+        for q, clo, chi, olo, ohi in self.splices.get(rel, []):
+            if line < clo:
+                break
+            if line <= chi:
+                return olo
+            shift += (chi - clo) - (ohi - olo)
+        return line - shift
 
     # ------------------------------------------------------------------ files
     def exists(self, rel):
@@ -42,7 +56,13 @@ class Source:
                     raw = f.read()
             self._raw[rel] = raw
             if self.canonical and rel.endswith('.py'):
-                from .canon import canonicalise, propagate_copies
+                from .canon import canonicalise, propagate_copies, splice_equivalent
+                try:
+                    raw, sp = splice_equivalent(rel, raw)
+                    if sp:
+                        self.splices[rel] = sp
+                except Exception:
+                    pass
                 try:
                     raw = canonicalise(rel, raw)
                 except Exception:      # canonicalisation is best effort: never let it break a check
